@@ -38,19 +38,26 @@ even number of swaps, float units, never dithered -/
 def IsInput (m : Mode) (x : Cell) : Prop :=
   x.rev = m.swap ∧ x.par = false ∧ x.unit = true ∧ x.dith = 0
 
-/-- the states `fe_start` followed by any sequence of `fe_process_{enc}` calls can reach, each call
+/-- the same front end used with another sample encoding -/
+def Mode.withEnc (m : Mode) (e : Enc) : Mode := { m with enc := e }
+
+theorem tag_withEnc (m : Mode) (e : Enc) (fe : Fe Nat) : tag (m.withEnc e) fe = tag m fe := rfl
+
+/-- the states `fe_start` followed by any sequence of `fe_process_int16` / `fe_process_float32`
+calls can reach — the two kinds of call may be **interleaved** (`e` is chosen per call) — each call
 on an arbitrary buffer (any samples, handed over in input order) with an arbitrary output limit -/
 inductive Reach (m : Mode) (c : Cfg) : Fe Cell → Prop
   | start : Reach m c FeBuf.start
-  | call {st st' : Fe Cell} {buf : List Nat} {L k n : Nat} :
-      Reach m c st → processS m c st (buf.map (inC m)) L = some (st', k, n) → Reach m c st'
+  | call {st st' : Fe Cell} {buf : List Nat} {L k n : Nat} (e : Enc) :
+      Reach m c st → processS (m.withEnc e) c st (buf.map (inC (m.withEnc e))) L = some (st', k, n) →
+      Reach m c st'
 
 theorem reach_tag {m : Mode} {c : Cfg} {st : Fe Cell} (h : Reach m c st) : ∃ fe, st = tag m fe := by
   induction h with
   | start => exact ⟨FeBuf.start, rfl⟩
-  | @call st st' buf L k n _ hp ih =>
+  | @call st st' buf L k n e _ hp ih =>
     obtain ⟨fe, rfl⟩ := ih
-    rw [process_tag] at hp
+    rw [← tag_withEnc m e, process_tag] at hp
     cases hq : FeBuf.process c fe buf L with
     | none => rw [hq] at hp; cases hp
     | some x =>
@@ -106,7 +113,8 @@ theorem tag_inv (m : Mode) (fe : Fe Nat) :
       exact hh i
 
 /-- **C06 byte order, between calls.** In every state reachable by `fe_start` and any sequence of
-calls (any buffers, any limits; swap on or off, dither on or off, int16 or float32): the whole valid
+calls (any buffers, any limits; swap on or off, dither on or off, int16 and float32 calls in any
+interleaving): the whole valid
 part of `fe->overflow_samps` is in **input** byte order (float units, even swap count, not
 dithered); `fe->spch`, the pre-emphasis prior and every window handed to the frame function are in
 **host** order, int16 units, swapped an odd number of times iff `fe->swap`, dithered exactly once
@@ -140,11 +148,12 @@ buffer with any limit can only fail if the *index* model fails on the same call 
 buffer — excluded for every schedule by `C06_frames_canonical`): the failure outcome "arithmetic on a
 value in the wrong byte order / wrong scale" never occurs.  The same for `fe_end`. -/
 theorem C06_swap_no_wrong_order_read {m : Mode} {c : Cfg} {st : Fe Cell} (h : Reach m c st)
-    (buf : List Nat) (L : Nat) :
-    (processS m c st (buf.map (inC m)) L = none → FeBuf.process c (st.map Cell.src) buf L = none) ∧
+    (e : Enc) (buf : List Nat) (L : Nat) :
+    (processS (m.withEnc e) c st (buf.map (inC (m.withEnc e))) L = none →
+      FeBuf.process c (st.map Cell.src) buf L = none) ∧
     (finishS m c st L = none → FeBuf.finish c (st.map Cell.src) L = none) := by
   obtain ⟨fe, rfl⟩ := reach_tag h
-  rw [erase_tag, process_tag, finish_tag]
+  rw [erase_tag, finish_tag, ← tag_withEnc m e, process_tag]
   constructor
   · intro hn; cases hq : FeBuf.process c fe buf L with
     | none => rfl
@@ -156,12 +165,13 @@ theorem C06_swap_no_wrong_order_read {m : Mode} {c : Cfg} {st : Fe Cell} (h : Re
 /-- **C06 byte order, one call refines the index model.** From a reachable state the call consumes
 the same number of samples, writes the same number of frames and reaches the state with the same
 sample indices as the index model `FeBuf.process`. -/
-theorem C06_swap_call_refines {m : Mode} {c : Cfg} {st st' : Fe Cell} (h : Reach m c st)
-    (buf : List Nat) (L k n : Nat) (hp : processS m c st (buf.map (inC m)) L = some (st', k, n)) :
+theorem C06_swap_call_refines {m : Mode} {c : Cfg} {st st' : Fe Cell} (h : Reach m c st) (e : Enc)
+    (buf : List Nat) (L k n : Nat)
+    (hp : processS (m.withEnc e) c st (buf.map (inC (m.withEnc e))) L = some (st', k, n)) :
     FeBuf.process c (st.map Cell.src) buf L = some (st'.map Cell.src, k, n) := by
   obtain ⟨fe, rfl⟩ := reach_tag h
   rw [erase_tag]
-  rw [process_tag] at hp
+  rw [← tag_withEnc m e, process_tag] at hp
   cases hq : FeBuf.process c fe buf L with
   | none => rw [hq] at hp; cases hp
   | some x =>
